@@ -33,6 +33,7 @@ import (
 	"github.com/hydraide/hydraide/app/core/hydra/swamp/treasure"
 	"github.com/hydraide/hydraide/app/core/hydra/swamp/treasure/guard"
 	ctlcmd "github.com/hydraide/hydraide/app/hydraidectl/cmd"
+	"github.com/hydraide/hydraide/app/verifhook"
 	"verif/harness/common"
 )
 
@@ -601,6 +602,8 @@ var reClose = regexp.MustCompile(`close\((\d+)<([^>]*)>\) = (-?\d+)`)
 var reRename = regexp.MustCompile(`rename(?:at|at2)?\((?:[^,]+, )?"([^"]*)", (?:[^,]+, )?"([^"]*)"(?:, [^)]*)?\) = (-?\d+)`)
 var reUnlink = regexp.MustCompile(`unlink(?:at)?\((?:[^,]+, )?"([^"]*)"(?:, [^)]*)?\) = (-?\d+)`)
 
+var reResumed = regexp.MustCompile(`^(\d+)\s+<\.\.\. (\w+) resumed>(.*)$`)
+var rePid = regexp.MustCompile(`^(\d+)\s`)
 var reAngle = regexp.MustCompile(`<((?:\\x[0-9a-f]{2})+)>`)
 var reQuoted = regexp.MustCompile(`"((?:\\x[0-9a-f]{2})+)"`)
 var reIsWrite = regexp.MustCompile(`^(?:\[pid +\d+\] |\d+ +)?(write|pwrite64)\(`)
@@ -627,11 +630,31 @@ func unhex(s string) []byte {
 func parseTrace(log string, tmpPath, hydPath string) ([]traceOp, error) {
 	var ops []traceOp
 	pos := int64(0)
-	for _, line := range strings.Split(log, "\n") {
-		line = decodeLine(line)
-		if strings.Contains(line, "<unfinished") || strings.Contains(line, "resumed>") {
+	// a syscall interrupted by another thread's output is printed in two pieces
+	// ("PID call(args <unfinished ...>" ... "PID <... call resumed>rest"): join them at the place
+	// where the call started
+	pending := map[string]int{} // pid -> index into lines of the unfinished piece
+	var lines []string
+	for _, raw := range strings.Split(log, "\n") {
+		line := decodeLine(raw)
+		if m := reResumed.FindStringSubmatch(line); m != nil {
+			if i, ok := pending[m[1]]; ok {
+				lines[i] = strings.TrimSpace(strings.TrimSuffix(strings.TrimSpace(lines[i]), "<unfinished ...>")) + strings.TrimSpace(m[3])
+				delete(pending, m[1])
+			}
+			continue
+		}
+		if strings.HasSuffix(strings.TrimSpace(line), "<unfinished ...>") {
+			if m := rePid.FindStringSubmatch(line); m != nil {
+				pending[m[1]] = len(lines)
+			}
+		}
+		lines = append(lines, line)
+	}
+	for _, line := range lines {
+		if strings.Contains(line, "<unfinished") {
 			if strings.Contains(line, tmpPath) {
-				return nil, fmt.Errorf("interleaved syscall on temp path: %s", line)
+				return nil, fmt.Errorf("syscall on temp path never resumed: %s", line)
 			}
 			continue
 		}
@@ -796,7 +819,7 @@ func main() {
 	a := common.ParseArgs()
 	run := common.NewRun(a, "C03", "HV.Storage.C03Compact")
 	run.Shard = 150
-	run.Meta.Rule = "session case = a real V2 chronicler / hydraidectl compactSwamp driven through 2-6 steps (Write-inline, Close, ForceCompaction, Load self-heal, CLI) on a scratch swamp with random thresholds, with a stale node placed at the .hyd.compact path before steps; non-trivial = a compaction actually replaced the .hyd while a stale node (valid older state / foreign name / truncated / random bytes / dir) was present. crash case = directory image after a prefix of the strace'd op sequence of a real compaction (torn last write, stale temps), loaded by the real chronicler; all crash images are non-trivial"
+	run.Meta.Rule = "session case = a real V2 chronicler / hydraidectl compactSwamp driven through 2-6 steps (Write-inline, Close, ForceCompaction, Load self-heal, CLI) on a scratch swamp with random thresholds, with a stale node placed at the .hyd.compact path before steps; non-trivial = a compaction actually replaced the .hyd while a stale node (valid older state / foreign name / truncated / random bytes / dir) was present. concurrent case = a compaction entry point parked just before its rename (verif hook) while another goroutine calls Write/Sync/Close/Destroy/ForceCompaction on the same chronicler, plus unparked stress with writer goroutines; non-trivial = the compaction really was in flight. crash case = directory image after a prefix of the strace'd op sequence of a real compaction (torn last write, stale temps), loaded by the real chronicler; all crash images are non-trivial"
 	rng := common.NewRng(a.Seed, "C03")
 	work, err := os.MkdirTemp("", "c03-")
 	if err != nil {
@@ -843,6 +866,42 @@ func main() {
 		}
 	}
 	run.Meta.Traces = len(results)
+
+	// ---- concurrency part (conc.go)
+	installParkController()
+	nconc, nstress, stressLive := 3, 2, 500
+	if a.Tier == "thorough" {
+		nconc, nstress, stressLive = 20, 16, 1500
+	}
+	type cjob struct {
+		rng         *common.Rng
+		trig, other int
+	}
+	var cjobs []cjob
+	for r := 0; r < nconc; r++ {
+		for t := range concTriggers {
+			for o := range concOthers {
+				cjobs = append(cjobs, cjob{rng.Fork(fmt.Sprintf("conc-%d-%d-%d", r, t, o)), t, o})
+			}
+		}
+	}
+	cres := make([]concResult, len(cjobs)+nstress)
+	for i := range cjobs { // one at a time: one armed parking slot
+		cres[i] = runConcCase(cjobs[i].rng, filepath.Join(work, fmt.Sprintf("k%d", i)), cjobs[i].trig, cjobs[i].other)
+	}
+	for i := 0; i < nstress; i++ { // one at a time: they are timing sensitive
+		cres[len(cjobs)+i] = runStressCase(rng.Fork(fmt.Sprintf("stress-%d", i)), filepath.Join(work, fmt.Sprintf("st%d", i)), stressLive)
+	}
+	verifhook.Install(nil)
+	for _, r := range cres {
+		idx := run.Add(r.term, r.descr, r.nontrivial)
+		for _, h := range r.hist {
+			run.Hist(h)
+		}
+		for _, v := range r.viol {
+			run.Violate(idx, "no call hangs", "c03_concurrent_call_hang", v)
+		}
+	}
 
 	// ---- crash part
 	if _, err := exec.LookPath("strace"); err != nil {
